@@ -223,7 +223,7 @@ def get_arg_ctx(
                 # a warning/errors in most linters.
                 # TODO: should it discard arguments of not-whitelisted types?
                 # TODO: raise a warning for non-whitelisted objects
-                h = dds_hash(p.default or "__none__")
+                h = dds_hash(p.default)
             elif p.kind == Parameter.VAR_KEYWORD:
                 # kwargs: for now, just ignored
                 h = None
@@ -266,8 +266,7 @@ def get_arg_ctx_ast(
         # NameConstant for python 3.5 - 3.7
         if isinstance(node, (ast.Constant, ast.NameConstant)):
             # We can deal with some constant nodes
-            default_ob = node.value if node.value is not None else "__none__"
-            return dds_hash(default_ob)
+            return dds_hash(node.value)
         else:
             # Cannot deal with it for the time being
             return None
@@ -301,7 +300,7 @@ def get_arg_ctx_ast(
                 # a warning/errors in most linters.
                 # TODO: should it discard arguments of not-whitelisted types?
                 # TODO: raise a warning for non-whitelisted objects
-                h = dds_hash(p.default or "__none__")
+                h = dds_hash(p.default)
             else:
                 # Do not consider this argument for the time being
                 h = None
